@@ -115,13 +115,26 @@ def main():
             for f in cf.as_completed(futs):
                 results[futs[f]] = f.result()
                 print_result(*results[futs[f]])
-    missed = sorted(i for i, (_, c, _) in results.items() if not c)
+    missed = sorted(i for i, (_, c, o) in results.items() if (not c and not out_of_scope(i)) or
+                    (out_of_scope(i) and any('VIOLATION' in x and 'no-failing-input-found' not in x for x in o)))
     print(f'SUMMARY {len(results) - len(missed)}/{len(results)} caught' + (('; not caught: ' + ' '.join(missed)) if missed else ''))
     return 1 if missed else rc_all
 
 
+def out_of_scope(i):
+    try:
+        return bool(json.load(open(os.path.join(VERIF, 'seeded', i, 'meta.json'))).get('out_of_scope'))
+    except Exception:   # noqa: BLE001
+        return False
+
+
 def print_result(i, caught, outs):
     tag = 'caught' if caught else ('ERROR' if caught is None else 'MISSED')
+    if out_of_scope(i):
+        # a change that does NOT break the property as quantified (kept for the record): the check must stay silent or at most
+        # report a broken tie; a concrete failing input would be a false alarm
+        concrete = any('VIOLATION' in o and 'no-failing-input-found' not in o for o in outs)
+        tag = 'OUT-OF-SCOPE-BUT-CONCRETE-ALARM' if concrete else 'out-of-scope (no concrete alarm, as it should be)'
     print(f'{i}: {tag} :: ' + ' ;; '.join(outs), flush=True)
 
 
